@@ -1,5 +1,6 @@
 import ErrModel.Proofs.EngineLW
 import ErrModel.Proofs.Prefix
+import ErrModel.Proofs.Utf8
 import ErrModel.Proofs.LexUnlex
 /-
   Transparency of the formatting engine on REGULAR text: what `StripMarkers` gives back, and
@@ -128,44 +129,21 @@ end ErrModel
 
 namespace ErrModel
 
-/-! ### ASCII text -/
+/-! ### regular text is clean: valid UTF-8 without marker runes (Proofs/Utf8.lean)
 
-def Ascii (s : Str) : Prop := ∀ c ∈ s, c < 0x80
+  The names below keep their historical `ascii` (the first version of this file was restricted to
+  ASCII); `Ascii s` now means `Clean s`: a concatenation of complete, valid, non-marker runes.
+  Every ASCII string is clean (`Clean_of_lt`). -/
 
-theorem Ascii_append {a b : Str} (ha : Ascii a) (hb : Ascii b) : Ascii (a ++ b) := by
-  intro c hc; rcases List.mem_append.mp hc with h | h; exact ha c h; exact hb c h
+abbrev Ascii (s : Str) : Prop := Clean s
 
-theorem lex_ascii : (s : Str) → Ascii s → lex s = bytesT s
-  | [], _ => rfl
-  | c :: r, h => by
-    have hc : c < 0x80 := h c (by simp)
-    have hr : Ascii r := fun x hx => h x (by simp [hx])
-    have hne : c ≠ 0xE2 := by intro h0; subst h0; simp at hc
-    conv => lhs; unfold lex
-    split
-    · rename_i r' hx; simp only [List.cons.injEq] at hx; exact absurd hx.1 hne
-    · rename_i r' hx; simp only [List.cons.injEq] at hx; exact absurd hx.1 hne
-    · rename_i y r' _ _ hx
-      simp only [List.cons.injEq] at hx
-      obtain ⟨rfl, rfl⟩ := hx
-      have := lex_ascii r hr
-      simp only [bytesT, List.map_cons] at this ⊢
-      rw [this]
-    · rename_i hx; simp at hx
+theorem Ascii_append {a b : Str} (ha : Ascii a) (hb : Ascii b) : Ascii (a ++ b) := Clean_append ha hb
 
-theorem escapeMarkers_ascii (s : Str) (h : Ascii s) : escapeMarkers s = s := by
-  rw [escapeMarkers, lex_ascii s h]
-  induction s with
-  | nil => rfl
-  | cons c r ih => simp [bytesT, escToks] at ih ⊢; exact ih (fun x hx => h x (by simp [hx]))
+theorem lex_ascii (s : Str) (h : Ascii s) : lex s = bytesT s := lex_clean h
 
-theorem stripMarkers_ascii (s : Str) (h : Ascii s) : stripMarkers s = s := by
-  rw [← stripT_lex, lex_ascii s h, stripT_bytesT]
+theorem escapeMarkers_ascii (s : Str) (h : Ascii s) : escapeMarkers s = s := escapeMarkers_clean h
 
-/-- a buffer ending in an ASCII byte does not end in invalid UTF-8 -/
-theorem lastRuneInvalid_ascii_end (p : Str) (c : UInt8) (hc : c < 0x80) : lastRuneInvalid (p ++ [c]) = false := by
-  unfold lastRuneInvalid
-  simp [List.reverse_append, hc]
+theorem stripMarkers_ascii (s : Str) (h : Ascii s) : stripMarkers s = s := stripMarkers_clean h
 
 theorem lastRuneInvalid_nil : lastRuneInvalid [] = false := rfl
 
@@ -198,86 +176,34 @@ end ErrModel
 
 namespace ErrModel
 
-/-! ### Sprintf on ASCII pieces: stripping the markers gives the pieces back -/
+/-! ### Sprintf on clean pieces: stripping the markers gives the pieces back -/
 
-/-- markers and ASCII bytes only -/
-def AllAsciiT (t : Toks) : Prop :=
-  ∀ x ∈ t, x = Tok.op ∨ x = Tok.cl ∨ ∃ c, (x = Tok.b c ∨ x = Tok.u c) ∧ c < 0x80
+/-- token lists that end in valid UTF-8 wherever a marker follows and at their end (`GoodT`) -/
+abbrev AllAsciiT (t : Toks) : Prop := GoodT t
 
-theorem AllAsciiT_nil : AllAsciiT [] := by intro x hx; simp at hx
+theorem AllAsciiT_nil : AllAsciiT [] := GoodT_nil
 
-theorem AllAsciiT_append {a b : Toks} (ha : AllAsciiT a) (hb : AllAsciiT b) : AllAsciiT (a ++ b) := by
-  intro x hx; rcases List.mem_append.mp hx with h | h; exact ha x h; exact hb x h
+theorem AllAsciiT_append {a b : Toks} (ha : AllAsciiT a) (hb : AllAsciiT b) : AllAsciiT (a ++ b) := GoodT_append ha hb
 
-theorem AllAsciiT_dropLast {a : Toks} (ha : AllAsciiT a) : AllAsciiT a.dropLast :=
-  fun x hx => ha x ((List.dropLast_sublist a).subset hx)
+theorem AllAsciiT_bytesT {s : Str} (h : Ascii s) : AllAsciiT (bytesT s) := GoodT_bytesT s h
 
-theorem AllAsciiT_bytesT {s : Str} (h : Ascii s) : AllAsciiT (bytesT s) := by
-  intro x hx; simp [bytesT] at hx; obtain ⟨c, hc, rfl⟩ := hx; exact Or.inr (Or.inr ⟨c, Or.inl rfl, h c hc⟩)
+theorem unlex_append (a b : Toks) : unlex (a ++ b) = unlex a ++ unlex b := unlex_append' a b
 
-theorem unlex_append (a b : Toks) : unlex (a ++ b) = unlex a ++ unlex b := by
-  induction a with
-  | nil => rfl
-  | cons x r ih => cases x <;> simp [unlex, ih, List.append_assoc]
-
-/-- such a buffer, followed by ASCII text, never ends in invalid UTF-8 -/
+/-- such a buffer, followed by clean text, never ends in invalid UTF-8 -/
 theorem lastRuneInvalid_allAscii (t : Toks) (a : Str) (ht : AllAsciiT t) (ha : Ascii a) :
     lastRuneInvalid (unlex t ++ a) = false := by
-  rcases List.eq_nil_or_concat a with h0 | ⟨a', c, rfl⟩
+  by_cases h0 : a = []
   · subst h0
     rw [List.append_nil]
-    rcases List.eq_nil_or_concat t with h1 | ⟨d, x, rfl⟩
-    · subst h1; rfl
-    · rw [List.concat_eq_append] at ht ⊢
-      rw [unlex_append]
-      rcases ht x (by simp) with rfl | rfl | ⟨c, hx, hc⟩
-      · exact lastRuneInvalid_mOpen _
-      · exact lastRuneInvalid_mClose _
-      · rcases hx with rfl | rfl
-        · exact lastRuneInvalid_ascii_end _ c hc
-        · exact lastRuneInvalid_ascii_end _ c hc
-  · rw [List.concat_eq_append] at ha ⊢
-    rw [← List.append_assoc]
-    exact lastRuneInvalid_ascii_end _ c (ha c (by simp))
+    rcases ht.fin with h1 | h1
+    · rw [h1]; rfl
+    · simpa using h1 []
+  · exact lastRuneInvalid_clean _ a ha h0
 
 theorem AllAsciiT_escLoopT (brk : Bool) (acc : Toks) (s : Str) (ha : AllAsciiT acc) (hs : Ascii s) :
-    AllAsciiT (escLoopT brk acc s) := by
-  fun_induction escLoopT brk acc s with
-  | case1 acc => exact ha
-  | case2 acc r ih =>
-    exact ih (AllAsciiT_append ha (by intro x hx; simp at hx; subst hx; exact Or.inr (Or.inr ⟨qmark, Or.inl rfl, by decide⟩)))
-      (fun c hc => hs c (by simp [hc]))
-  | case3 acc r ih =>
-    exact ih (AllAsciiT_append ha (by intro x hx; simp at hx; subst hx; exact Or.inr (Or.inr ⟨qmark, Or.inl rfl, by decide⟩)))
-      (fun c hc => hs c (by simp [hc]))
-  | case4 acc c r h1 h2 hc acc1 run rest _ ih =>
-    apply ih
-    · have h1' : AllAsciiT acc1 := by
-        show AllAsciiT (if acc.getLast? = some .op then acc.dropLast else acc ++ [.cl])
-        split
-        · exact AllAsciiT_dropLast ha
-        · exact AllAsciiT_append ha (by intro x hx; simp at hx; subst hx; exact Or.inr (Or.inl rfl))
-      have hrun : Ascii (nl :: run) := by
-        intro x hx
-        rcases List.mem_cons.mp hx with rfl | hx
-        · decide
-        · exact hs x (List.mem_cons_of_mem _ ((List.takeWhile_sublist _).subset hx))
-      have : nlT :: bytesT run = bytesT (nl :: run) := rfl
-      apply AllAsciiT_append
-      · exact AllAsciiT_append h1' (by rw [this]; exact AllAsciiT_bytesT hrun)
-      · intro x hx; simp at hx; subst hx; exact Or.inl rfl
-    · intro x hx; exact hs x (List.mem_cons_of_mem _ ((List.dropWhile_sublist _).subset hx))
-  | case5 acc c r h1 h2 hc ih =>
-    apply ih
-    · apply AllAsciiT_append ha
-      intro x hx
-      simp at hx
-      subst hx
-      refine Or.inr (Or.inr ⟨c, ?_, hs c (by simp)⟩)
-      split <;> simp
-    · exact fun x hx => hs x (by simp [hx])
+    AllAsciiT (escLoopT brk acc s) := GoodT_escLoopT brk s.length s acc (Nat.le_refl _) ha hs
 
-/-- the pieces a Sprintf is given, all ASCII -/
+/-- the pieces a Sprintf is given, all clean (valid UTF-8, no marker rune) -/
 def SegT.ascii : SegT → Prop
   | .lit s => Ascii s
   | .arg s => Ascii s
@@ -308,8 +234,8 @@ theorem RBT.startRedactable_ascii (r : RBT) (ha : AllAsciiT r.done) :
     stripT r.startRedactable.done = stripT r.done ∧ AllAsciiT r.startRedactable.done := by
   unfold RBT.startRedactable
   split
-  · rename_i hl; exact ⟨stripT_dropLast_cl hl, AllAsciiT_dropLast ha⟩
-  · exact ⟨by simp [stripT_append], AllAsciiT_append ha (by intro x hx; simp at hx; subst hx; exact Or.inl rfl)⟩
+  · rename_i hl; exact ⟨stripT_dropLast_cl hl, GoodT_dropLast_marker ha hl rfl⟩
+  · exact ⟨by simp [stripT_append], AllAsciiT_append ha (GoodT_marker .op rfl)⟩
 
 theorem RBT.endRedactable_ascii (r : RBT) (ha : AllAsciiT r.done) :
     stripT r.endRedactable.done = stripT r.done ∧ AllAsciiT r.endRedactable.done := by
@@ -317,8 +243,8 @@ theorem RBT.endRedactable_ascii (r : RBT) (ha : AllAsciiT r.done) :
   split
   · exact ⟨rfl, ha⟩
   · split
-    · rename_i hl; exact ⟨stripT_dropLast_op hl, AllAsciiT_dropLast ha⟩
-    · exact ⟨by simp [stripT_append], AllAsciiT_append ha (by intro x hx; simp at hx; subst hx; exact Or.inr (Or.inl rfl))⟩
+    · rename_i hl; exact ⟨stripT_dropLast_op hl, GoodT_dropLast_marker ha hl rfl⟩
+    · exact ⟨by simp [stripT_append], AllAsciiT_append ha (GoodT_marker .cl rfl)⟩
 
 theorem RBT.AInv_seg (r : RBT) (o : Str) (h : r.AInv o) (g : SegT) (hg : g.ascii) :
     (r.seg g).AInv (o ++ g.content) := by
@@ -355,7 +281,7 @@ theorem RBT.AInv_seg (r : RBT) (o : Str) (h : r.AInv o) (g : SegT) (hg : g.ascii
     show ((r.setMode .unsafeE).write s |>.setMode .safeE).AInv _
     have hI' : ((r.setMode .unsafeE).write s |>.setMode .safeE).Inv := hI
     rw [hA, hB, hfin] at hI' ⊢
-    refine ⟨hI', n2, by show Ascii (B.escapeToEnd true).endRedactable.pend; rw [hpe]; intro c hc; simp at hc, ?_⟩
+    refine ⟨hI', n2, by show Ascii (B.escapeToEnd true).endRedactable.pend; rw [hpe]; exact Clean.nil, ?_⟩
     show stripT (B.escapeToEnd true).endRedactable.done ++ (B.escapeToEnd true).endRedactable.pend = _
     rw [hpe, n1, m1]
     show (stripT A.startRedactable.done ++ s) ++ [] = _
@@ -368,7 +294,7 @@ theorem RBT.AInv_seg (r : RBT) (o : Str) (h : r.AInv o) (g : SegT) (hg : g.ascii
     obtain ⟨f1, f2, f3⟩ := RBT.escapeToEnd_fields r false
     refine ⟨RBT.Inv_pre r ⟨hm, hc, hl⟩ s hg.2, ?_, ?_, ?_⟩
     · simp only [RBT.seg, RBT.setMode, hm, RBT.write]; simp [f2, hc]; exact AllAsciiT_append e2 hg.1
-    · simp only [RBT.seg, RBT.setMode, hm, RBT.write]; simp [f2, hc, f3]; intro c hc; simp at hc
+    · simp only [RBT.seg, RBT.setMode, hm, RBT.write]; simp [f2, hc, f3]; exact Clean.nil
     · simp only [RBT.seg, RBT.setMode, hm, RBT.write, SegT.content]; simp [f2, hc, f3]
       rw [stripT_append, e1, hs, stripT_lexL]
   | preT t =>
@@ -376,16 +302,19 @@ theorem RBT.AInv_seg (r : RBT) (o : Str) (h : r.AInv o) (g : SegT) (hg : g.ascii
     obtain ⟨f1, f2, f3⟩ := RBT.escapeToEnd_fields r false
     refine ⟨RBT.Inv_preT r ⟨hm, hc, hl⟩ t hg.2, ?_, ?_, ?_⟩
     · simp only [RBT.seg, RBT.setMode, hm, RBT.writeToks]; simp [f2, hc]; exact AllAsciiT_append e2 hg.1
-    · simp only [RBT.seg, RBT.setMode, hm, RBT.writeToks]; simp [f2, hc, f3]; intro c hc; simp at hc
+    · simp only [RBT.seg, RBT.setMode, hm, RBT.writeToks]; simp [f2, hc, f3]; exact Clean.nil
     · simp only [RBT.seg, RBT.setMode, hm, RBT.writeToks, SegT.content]; simp [f2, hc, f3]
       rw [stripT_append, e1, hs]
 
-/-- Sprintf of ASCII pieces: stripping the markers gives the concatenation of the pieces -/
+/-- Sprintf of clean pieces: stripping the markers gives the concatenation of the pieces -/
 theorem stripT_assembleT_ascii (segs : List SegT) (hs : ∀ g ∈ segs, g.ascii) :
     stripT (assembleT segs) = segs.flatMap SegT.content ∧ AllAsciiT (assembleT segs) := by
   have h0 : (RBT.reset.setMode .safeE).AInv [] := by
-    refine ⟨RBT.Inv_init, ?_, ?_, ?_⟩ <;>
-      simp [RBT.reset, RBT.setMode, RBT.escapeToEnd, escLoopT, lastRuneInvalid, unlex, AllAsciiT_nil, Ascii]
+    have hd : (RBT.reset.setMode .safeE).done = [] := by
+      simp [RBT.reset, RBT.setMode, RBT.escapeToEnd, escLoopT, lastRuneInvalid, unlex]
+    have hp : (RBT.reset.setMode .safeE).pend = [] := by
+      simp [RBT.reset, RBT.setMode, RBT.escapeToEnd, escLoopT, lastRuneInvalid, unlex]
+    refine ⟨RBT.Inv_init, by rw [hd]; exact AllAsciiT_nil, by rw [hp]; exact Clean.nil, by rw [hd, hp]; rfl⟩
   have hfold : ∀ (l : List SegT) (r : RBT) (o : Str), r.AInv o → (∀ g ∈ l, g.ascii) →
       (l.foldl RBT.seg r).AInv (o ++ l.flatMap SegT.content) := by
     intro l
@@ -661,13 +590,13 @@ theorem write_fresh (t : Toks) (hr : Reg (stripT t)) :
   simp only [hn, if_false, List.append_nil] at this
   simpa using this
 
-/-- escaping an ASCII text only encloses it: stripped, it is the text again -/
+/-- escaping a clean text only encloses it: stripped, it is the text again -/
 theorem stripT_escapeBytesT_ascii (x : Str) (h : Ascii x) : stripT (escapeBytesT x) = x := by
   unfold escapeBytesT
   have hl : lastRuneInvalid (mOpen ++ x) = false := by
-    rcases List.eq_nil_or_concat x with h0 | ⟨p, c, rfl⟩
+    by_cases h0 : x = []
     · subst h0; simpa using lastRuneInvalid_mOpen []
-    · rw [List.concat_eq_append, ← List.append_assoc]; exact lastRuneInvalid_ascii_end _ c (h c (by simp))
+    · exact lastRuneInvalid_clean _ x h h0
   simp only [hl, Bool.false_eq_true, if_false]
   rw [stripT_append, stripT_escLoopT, escapeMarkers_ascii x h]
   simp [stripT, stripToks]
@@ -815,7 +744,7 @@ structure EntryIs (en : Entry) (txt : Str) : Prop where
   noElide : en.elideShort = false
   asc : Ascii txt
 
-theorem Ascii_nil : Ascii [] := by intro c hc; simp at hc
+theorem Ascii_nil : Ascii [] := Clean.nil
 
 theorem EntryIs.good {en : Entry} {txt : Str} (h : EntryIs en txt) (hne : txt ≠ []) : GoodHead en :=
   Or.inr (by rw [h.head]; exact hne)
@@ -850,7 +779,7 @@ theorem withStackOf_head (en : Entry) (ls : Stack) (st : Option Stack) :
     (withStackOf en ls st).1.head = en.head ∧ (withStackOf en ls st).1.elideShort = en.elideShort := by
   unfold withStackOf; split <;> exact ⟨rfl, rfl⟩
 
-/-- a stored redactable string (message, prefix): ASCII, well-formed, regular once stripped -/
+/-- a stored redactable string (message, prefix): clean, well-formed, regular once stripped -/
 structure RegR (p : Str) : Prop where
   ascii : AllAsciiT (lexL p)
   lw : LW (lexL p)
@@ -980,7 +909,7 @@ structure WrapEntry (k : WrapKind) (ct : Str) (en : Entry) (elide : Bool) : Prop
          else stripT en.head ++ (if elide ∨ ct = [] then [] else colonSp ++ ct)) = wrapText k ct
   asc : Ascii (stripT en.head)
 
-theorem sp_ascii : Ascii sp := by intro c hc; simp [sp] at hc; subst hc; decide
+theorem sp_ascii : Ascii sp := Clean_of_lt sp (by intro c hc; simp [sp] at hc; subst hc; decide)
 
 /-- formatSimple: the prefix extracted from the two Error() texts, printed before the cause (or
     instead of it), reassembles the wrapper's own Error() text -/
@@ -1135,8 +1064,8 @@ namespace ErrModel
 
 /-! ### `%v` prints exactly Error() -/
 
-/-- the errors over regular ASCII text: every string a layer prints in one-line mode begins and ends
-    with a non-newline byte, has no two newlines in a row, is ASCII, and stored redactable strings
+/-- the errors over regular text: every string a layer prints in one-line mode begins and ends
+    with a non-newline byte, has no two newlines in a row, is valid UTF-8 without marker runes (`Clean`), and stored redactable strings
     are well-formed; hidden parts and the branches of multi-cause nodes are unconstrained -/
 def RegE : Err → Prop
   | .leaf _ k => k.regular
